@@ -214,24 +214,28 @@ def encodeEntries (encK encV : Nat → Bytes) : List (Nat × Nat) → Bytes
 def encode (encK encV : Nat → Bytes) (m : AMap) : Bytes :=
   le32 (m.length % 4294967296) ++ encodeEntries encK encV m
 
-/-- The decode loop: `n` more entries to read from `b`, `used` bytes consumed so far.  An element
-decoding error aborts with `none` but keeps the entries `Set` so far (the code mutates the receiver
-as it goes). -/
-def decodeLoop (decK decV : Dec) : Nat → Bytes → AMap → Nat → AMap × Option Nat
-  | 0, _, m, used => (m, some used)
-  | n + 1, b, m, used =>
+/-- The decode loop: `n` more entries to read from `b`, `used` bytes consumed so far, `seen` = the keys
+decoded by this call.  An element decoding error or a key that was already decoded by this call
+(after the fix: an encoded map never contains a key twice) aborts with `none` but keeps the entries
+`Set` so far (the code mutates the receiver as it goes). -/
+def decodeLoop (decK decV : Dec) : Nat → Bytes → AMap → Nat → List Nat → AMap × Option Nat
+  | 0, _, m, used, _ => (m, some used)
+  | n + 1, b, m, used, seen =>
     match decK b with
     | none => (m, none)
     | some (k, nk) =>
-      match decV (b.drop nk) with
-      | none => (m, none)
-      | some (v, nv) => decodeLoop decK decV n (b.drop (nk + nv)) (AMap.set m k v).1 (used + nk + nv)
+      if seen.contains k then (m, none)
+      else
+        match decV (b.drop nk) with
+        | none => (m, none)
+        | some (v, nv) =>
+          decodeLoop decK decV n (b.drop (nk + nv)) (AMap.set m k v).1 (used + nk + nv) (k :: seen)
 
 /-- `Decode` into the receiver `m` (which is *not* cleared first). -/
 def decode (decK decV : Dec) (m : AMap) (b : Bytes) : AMap × Option Nat :=
   match unle32 b with
   | none => (m, none)
-  | some (n, rest) => decodeLoop decK decV n rest m 4
+  | some (n, rest) => decodeLoop decK decV n rest m 4 []
 
 /-! ### the concrete element codecs used by the correspondence run (serix: `uint16`, `uint8`, `struct{}`) -/
 
